@@ -15,7 +15,9 @@ expected is derived from that text by the small resolver below (tab splitting on
     path's ITEMS and inlining its WALK); captured_segments / captured_edges must be the projections;
   * errors: a gfapy.Error from captured_path is demanded when the items are not contiguous under ANY reading
     (consecutive elements do not even share a segment name / no edge between two listed segments whatever the
-    orientation), or when two different edges both join two listed segments in the required direction;
+    orientation; next to a nested reference: whichever of its two readings is taken on that side, independently
+    of the reading taken on its other side), or when two different edges both join two listed segments in the
+    required direction;
   * reversing twice is the identity (the library compared with itself, so groups whose expected walk is doubtful
     are covered too): a second document is built in which every reference `q+` / `q-` to a path inside an O group
     is written `q~-` / `q~+`, q~ being a new group `O q~ q-`.  Under every reading of "nested paths inlined and
@@ -245,6 +247,7 @@ def resolve_group(c, gid, memo, stack=()):
         return ("doubt", None)
     items = c.O[gid]
     it_toks, wk_toks = [], []
+    ends_of = []         # per item: (tokens it may begin with, tokens it may end with) under the two readings
     status = None
     for ref, o in items:
         k = c.kind.get(ref)
@@ -254,9 +257,11 @@ def resolve_group(c, gid, memo, stack=()):
         if k[0] == "S":
             t = [("S", ref, o)]
             it_toks += t; wk_toks += t
+            ends_of.append((t, t))
         elif k[0] == "E":
             t = [("E", k[1], o)]
             it_toks += t; wk_toks += t
+            ends_of.append((t, t))
         else:
             sub = resolve_group(c, ref, memo, stack + (gid,))
             if sub[0] in ("nc", "ambig"):
@@ -269,8 +274,11 @@ def resolve_group(c, gid, memo, stack=()):
             if sub_items is None:
                 status = ("doubt", None)
                 break
-            it_toks += sub_items if o == "+" else flip(sub_items)
-            wk_toks += sub[1] if o == "+" else flip(sub[1])
+            si = sub_items if o == "+" else flip(sub_items)
+            sw = sub[1] if o == "+" else flip(sub[1])
+            it_toks += si
+            wk_toks += sw
+            ends_of.append(([si[0], sw[0]], [si[-1], sw[-1]]))
     if status is None:
         if len(items) == 1 and c.kind.get(items[0][0], ("?",))[0] == "E" and items[0][1] == "-":
             status = ("doubt", None)      # DESIGN 7 #25 (also excluded by the direction-blind reading below)
@@ -281,8 +289,15 @@ def resolve_group(c, gid, memo, stack=()):
                     status = ("walk", a[1])
                 else:
                     status = ("doubt", None)
-            elif a[0] == b[0] and a[0] in ("nc", "ambig"):
-                status = (a[0], None)
+            elif a[0] == b[0] == "ambig":
+                status = ("ambig", None)
+            elif a[0] == b[0] == "nc":
+                # the library may read the two ends of one nested reference differently (its walk on one side, a
+                # restated segment after its last edge item on the other): an error is demanded only when two
+                # adjacent items do not touch whichever way each of them is read
+                broken = any(all(not weakly_contiguous(c, [x, y]) for x in p[1] for y in q[0])
+                             for p, q in zip(ends_of, ends_of[1:]))
+                status = ("nc", None) if broken else ("doubt", None)
             else:
                 status = ("doubt", None)
     memo[gid] = status
